@@ -6,6 +6,35 @@ STD_ASSUME = ["the Lean model is tied to /repo by the T1 extractor and the T2 co
 HOOK_COMMITS = ["9665c83 verif hooks: yield points in the sse delivery goroutine and handler exit path"]
 
 PROPS = {
+    "C02": {
+        "claimed": True,
+        "model_modules": ["TemplVerif.Model.Ast", "TemplVerif.Model.Sem", "TemplVerif.Model.Gen", "TemplVerif.Model.Denote", "TemplVerif.Generated.Elements"],
+        "proof_modules": ["TemplVerif.Proofs.GenBase", "TemplVerif.Proofs.Gen"],
+        "quick_shards": 4, "thorough_shards": 14,
+        "level_text": "PROVED in Lean 4, for EVERY template body (all nestings of all 16 node kinds and 6 attribute kinds) and every environment: "
+                      "C02_refines_hoistAll - running the statements the generator emits (model Gen.genNodes + Gen.exec, a transcription of "
+                      "writeNodes/writeNode/the attribute writers) writes exactly the document, returns exactly the error and evaluates exactly "
+                      "the expressions, in the order, of the direct reading of the tree (Denote), with class/on* expressions below conditional "
+                      "attributes announced unconditionally; C02_refines_partial - hence equals the denotation for every template without such an "
+                      "attribute; C02_counterexample - and differs with one (known finding); the whitespace clauses C02_space_not_invented, "
+                      "C02_space_kept, C02_successor_skips_whitespace. T1 (C02_pinned + Generated.Elements): void/block tables, isInlineOrText "
+                      "cases, value-writer chain, hoisted names are re-extracted from the source on every run. CHECKED (T2): batches of "
+                      "grammar-generated templates in many spellings are run through the REAL templ generate, compiled with go build, rendered "
+                      "with several value tables (incl. failing expressions and components), and bytes / error / evaluation trace are compared "
+                      "with BOTH the model of the generated code (mismatch) and the denotation (violation) on the tree the REAL parser built.",
+        "level_note": "Not proved: that the generated Go type-checks (observed: every batch must compile). Go expressions are opaque: their values "
+                      "come from oracle functions (recorded evaluation), so 'for all argument values' is over value tables, not over Go programs. "
+                      "CSS components in class expressions, css/script TEMPLATES and nonce handling are outside this model (C05, C12, C03).",
+        "rule": "1 (3) batch(es) per shard of 100 (400) accepted templates x 4 (6) value tables over 12 keys from 27 adversarial strings; "
+                "Non-trivial = more than one expression evaluated.",
+        "exhaustive": False,
+        "proved": ["C02_refines_hoistAll", "C02_refines_partial", "C02_counterexample", "C02_space_not_invented", "C02_space_kept",
+                   "C02_successor_skips_whitespace", "C02_pinned"],
+        "monitored": ["every batch of generated code compiles", "rendered bytes / error / trace = Gen.run (model)", "= Denote.run (specification)"],
+        "partial": ["Go type checking of generated code is observed, not proved", "expressions are oracle calls"],
+        "trusted_base": ["Go compiler", "the oracle vocabulary harness/c02oracle and the harness's value tables"],
+        "assumptions": STD_ASSUME,
+    },
     "C15": {
         "claimed": True,
         "race_build": True,
@@ -233,8 +262,33 @@ PROPS = {
         "trusted_base": ["Go map assignment = later entry wins", "utf8 range iteration modelled by Utf8.decodeRune"],
         "assumptions": STD_ASSUME,
     },
-    "C08": {"claimed": False, "na_reason": "differential check built (format, then parse + generate + gofmt, compare); printer/reparse model and theorems not yet built",
-            "model_modules": [], "proof_modules": [], "rule": "repo templates + grammar-generated templates", "search_rounds": 0},
+    "C08": {
+        "claimed": True,
+        "model_modules": ["TemplVerif.Model.Ast", "TemplVerif.Model.Gen", "TemplVerif.Model.Norm"],
+        "proof_modules": ["TemplVerif.Proofs.Norm"],
+        "thorough_shards": 14,
+        "level_text": "PROVED in Lean 4, for EVERY pair of template bodies: C08_same_class_same_program - if two trees have the same layout-class "
+                      "representative (Norm.body: layout flags dropped; trailing spaces kept exactly where they are rendered and vertical = "
+                      "horizontal; whitespace nodes dropped where the generator drops them; comment text dropped; everything else - names, attribute "
+                      "order and values, text, expression texts, structure - kept) the generator emits the SAME statements for them, hence "
+                      "(C08_same_class_same_rendering, with C02) they write the same bytes, return the same error and evaluate the same expressions "
+                      "for all values; C08_norm_projection. CHECKED on every run, not proved (there is no model of the formatter's printer and of "
+                      "the parser): for every accepted input x, fmt(x) is accepted, the REAL parser's trees of x and fmt(x) are in the same layout "
+                      "class template by template (expression texts compared modulo blanks), and the REAL generated code of both, after masking "
+                      "positions and gofmt, is identical; an input where the code differs is a violation (with the input as replay), and a pair "
+                      "in the same class whose real code differs breaks the correspondence of the theorem's model.",
+        "level_note": "Partial: that `templ fmt` never leaves the layout class is established per input by the correspondence run, not for all inputs; "
+                      "Go-level equivalence of expression texts that differ only in blanks is the Go language's (trusted).",
+        "rule": "all .templ files of the repository + 17 seed bodies (x LF/CRLF) + 2500 (40000) grammar-generated files in many spellings. "
+                "Non-trivial = the file is accepted by parse + generate + gofmt.",
+        "exhaustive": False,
+        "proved": ["C08_same_class_same_program", "C08_same_class_same_rendering", "C08_norm_projection"],
+        "monitored": ["fmt(x) accepted", "generated code of x and fmt(x) identical modulo positions/gofmt", "layout class kept, template by template",
+                      "same class => same real code (model correspondence)"],
+        "partial": ["class preservation by the real formatter is checked per input, not proved"],
+        "trusted_base": ["go/format", "Go's insensitivity to blanks inside an expression"],
+        "assumptions": STD_ASSUME,
+    },
     "C09": {"claimed": False, "na_reason": "differential check built (format twice, compare); printer/reparse model and theorems not yet built",
             "model_modules": [], "proof_modules": [], "rule": "repo templates + grammar-generated templates", "search_rounds": 0},
     "C11": {
